@@ -184,6 +184,26 @@ def run(R):
                     st, ok = mon.call(signature.verify_sign, p, m, s)
                     return st == 'exc' or ok is False
                 R.check(rejected(other, msg, sig), 'verifies-under-other-key', 'signature verifies under another key', W)
+                # the message is a byte string whatever its class: an already signed document (PyNaCl's SignedMessage is a bytes subclass carrying its own .signature and
+                # .message) that is countersigned, a user's bytes subclass - signed and verified like the same bytes
+                from nacl.signing import SigningKey as _SK
+
+                class Blob(bytes):
+                    pass
+                inner = _SK(rng.randbytes(32)).sign(msg)                   # SignedMessage = inner signature + msg
+                for mname, m in (('SignedMessage', inner), ('bytes-subclass', Blob(msg))):
+                    st, csig = mon.call(signature.sign_message, m, sk64)
+                    if st == 'exc':
+                        R.violation(f'sign-raises-message-{mname}', f'sign_message of a {mname} raised {csig!r}', W)
+                        continue
+                    csig = bytes(csig)
+                    st, ok = mon.call(signature.verify_sign, pub, m, csig)
+                    R.check(st == 'ok' and ok is True, f'own-signature-rejected-message-{mname}', f'the signature over a message given as a {mname} does not verify under the matching key', W)
+                    st, ok = mon.call(signature.verify_sign, pub, bytes(m), csig)
+                    R.check(st == 'ok' and ok is True, f'own-signature-rejected-message-{mname}', f'the signature over a {mname} does not verify for the same bytes as plain bytes', W)
+                    R.check(rejected(pub, m, bytes(64)) and rejected(pub, m, csig[:63] + bytes([csig[63] ^ 1])) and rejected(other, m, csig),
+                            f'forged-signature-accepted-message-{mname}', f'a zero / altered signature, or another key, is accepted for a message given as a {mname}', W)
+                    R.count('bytes_subclass_messages')
                 R.check(rejected(pub, msg + b'\x00', sig), 'verifies-extended-message', 'signature verifies for message + 1 byte', W)
                 if n:
                     R.check(rejected(pub, msg[:-1], sig), 'verifies-truncated-message', 'signature verifies for message - 1 byte', W)
